@@ -506,10 +506,17 @@ def explore(module, harness_names, tier, seed=0, pool=None, log=print, only_cfg=
         if isinstance(h, type):
             h = h()
         cfgs = h.configs(tier)
+        if tier == 'thorough':
+            # the thorough tier contains the quick tier: its configurations come first, so that a thorough run that hits
+            # its time budget has still covered everything the quick check covers
+            cfgs = h.configs('quick') + cfgs
         for cfg in cfgs:
             if only_cfg is not None and not only_cfg(cfg):
                 continue
+            if (hn, _cfg_key(cfg)) in index:
+                continue
             cs = ConfigStats(hn, cfg)
+            cs.first = tier == 'thorough' and cfg in h.configs('quick')
             cs.cap = cfg.get('cap', 200000)
             cs.kind = h.kind
             cs.t0 = time.time()
@@ -517,6 +524,7 @@ def explore(module, harness_names, tier, seed=0, pool=None, log=print, only_cfg=
             stats.append(cs)
     order = list(stats)
     rnd.shuffle(order)
+    order.sort(key=lambda c: not getattr(c, 'first', False))     # (stable: the seed still decides the order within each part)
     # biggest spaces first would balance better, but the seed decides the order (results are order-independent)
     for cs in order:
         cfg = cs.cfg
@@ -532,14 +540,38 @@ def explore(module, harness_names, tier, seed=0, pool=None, log=print, only_cfg=
             jobs.append(dict(type='explore', module=module, harness=cs.harness, cfg=cfg, bound=cfg.get('bound', 1),
                              prefixes=[[]], budget=200, tbudget=3.0))
 
+    # wall-clock budget (thorough tier only, VERIF_TIME_BUDGET_S overrides; 0 = none): when it is used up, what is still
+    # queued is dropped and the configurations concerned are reported as capped (cap_reason 'time'), never as exhaustive
+    budget_s = float(os.environ.get('VERIF_TIME_BUDGET_S') or (1200 if tier == 'thorough' else 0))
+    t_start = time.time()
+    drained = [False]
+
+    def over():
+        return budget_s > 0 and time.time() - t_start > budget_s
+
     def on_result(job, res):
         cs = index[(job['harness'], _cfg_key(job['cfg']))]
         cs.add(res)
         cs.wall = time.time() - cs.t0
         left = res.get('leftover') or []
+        if over() and not drained[0]:
+            drained[0] = True
+            keep = []
+            for j in jobs:
+                if j['type'] == 'cases':
+                    c = index[(j['harness'], _cfg_key(j['cfg']))]
+                    c.capped = True
+                    c.cap_reason = f'time budget {budget_s:.0f} s'
+                    c.unexplored_prefixes = getattr(c, 'unexplored_prefixes', 0) + len(j['cases'])
+                else:
+                    keep.append(j)
+            jobs.clear()
+            jobs.extend(keep)
         if left:
-            if cs.execs >= cs.cap:
+            if cs.execs >= cs.cap or over():
                 cs.capped = True
+                if cs.execs < cs.cap:
+                    cs.cap_reason = f'time budget {budget_s:.0f} s'
                 cs.unexplored_prefixes = getattr(cs, 'unexplored_prefixes', 0) + len(left)
                 return
             # split the leftover stack so that idle workers get something
